@@ -316,6 +316,60 @@ pub fn run(args: &Args) -> i32 {
             break;
         }
     }
+    // the TLS server: same bound / eviction / shutdown rules with connections that never become sessions
+    if only.is_none() {
+        let tls_histories = args.tier.pick(40u64, 600);
+        let mut n = 0;
+        while n < tls_histories && ev.violations.len() < 6 {
+            let hi = (n + 8).min(tls_histories);
+            let results = rt.block_on(async {
+                let mut hs = vec![];
+                for i in n..hi {
+                    hs.push(tokio::spawn(async move {
+                        let mut rng = Rng::sub(seed, 1150, i);
+                        let (max_sessions, evs) = crate::c15tls::gen_history(&mut rng);
+                        let mut ev = Evidence::new();
+                        let mut problems = crate::c15tls::run_history(max_sessions, &evs, Duration::from_millis(150), &mut ev).await;
+                        if !problems.is_empty() {
+                            let mut ev2 = Evidence::new();
+                            let again = crate::c15tls::run_history(max_sessions, &evs, Duration::from_millis(1500), &mut ev2).await;
+                            if again.is_empty() {
+                                ev.count("unconfirmed_on_rerun", 1);
+                                problems.clear();
+                            } else {
+                                problems = again;
+                            }
+                        }
+                        (i, max_sessions, evs, ev, problems)
+                    }));
+                }
+                let mut out = vec![];
+                for h in hs {
+                    if let Ok(x) = h.await {
+                        out.push(x);
+                    }
+                }
+                out
+            });
+            for (i, max_sessions, evs, e, problems) in results {
+                ev.merge(e);
+                ev.eval();
+                ev.count("tls_histories", 1);
+                ev.class(format!("tls|max_sessions={max_sessions}"));
+                for e in &evs {
+                    ev.class(format!("tls|event|{}", format!("{e:?}").split('(').next().unwrap()));
+                }
+                for (sig, what) in problems {
+                    ev.violation(
+                        format!("max_sessions={max_sessions}:{sig}"),
+                        what,
+                        json!({"tls": true, "n": i, "max_sessions": max_sessions, "history": evs.iter().map(|e| format!("{e:?}")).collect::<Vec<_>>()}),
+                    );
+                }
+            }
+            n = hi;
+        }
+    }
     let meta = Meta {
         property_id: "C15",
         level: "exploration",
